@@ -58,7 +58,7 @@ type sentBatch struct {
 
 const RootID = "inst"
 
-var nodeIDs = []string{"n0", "n1", "n2", "n3", "n4", "n5", "n6", "n7"}
+var nodeIDs = []string{"n0", "n1", "n2", "n3", "n4", "n5", "n'6", "n7"} // one id with a quote: ids are free text and reach SQL and subjects
 var nodeTypes = []string{"t", "group", "device", "variable"}
 
 // New starts an instance and seeds the model from its initial content.
